@@ -145,3 +145,69 @@ pub fn pre_answer_ok(pre: &[u8], ok: bool, why: &str) -> String {
         format!("MISMATCH {why}")
     }
 }
+
+// ---------------------------------------------------------------- primitive-level helpers (C37 / C38)
+use aranya_crypto::{
+    dangerous::spideroak_crypto::{
+        aead::Aead as _,
+        kdf::Kdf as _,
+        rust::{Aes256Gcm, HkdfSha512},
+    },
+    default::DefaultEngine,
+    engine::UnwrappedKey,
+    Engine as _, Identified,
+};
+
+pub type Eng = DefaultEngine<SeedRng, CS>;
+pub type EngKey = <Aes256Gcm as aranya_crypto::dangerous::spideroak_crypto::aead::Aead>::Key;
+
+/// every suite OID `encode_string`ed, concatenated (`Oids::encode`)
+pub fn encoded_oids() -> Vec<u8> {
+    let mut v = vec![];
+    for o in suite_oids() {
+        v.extend(encode_string(&o));
+    }
+    v
+}
+
+/// Raw secret bytes of a key, obtained WITHOUT any hook: wrap it with the real engine and open
+/// the wrapped form with the raw AES-256-GCM primitive under the known engine key (C36 layout).
+pub fn raw_secret<K: UnwrappedKey<CS> + Identified>(eng: &Eng, ekey: &EngKey, key: K, alg_id: &[u8]) -> Vec<u8> {
+    let wk = eng.wrap(key).expect("wrap");
+    let ser = postcard::to_allocvec(&wk).expect("serialize wrapped key");
+    assert!(ser[0] == 0x20 && ser.len() > 62, "wrapped key layout");
+    let n = ser.len() - 62;
+    let (id, nonce, ct, tag) = (&ser[1..33], &ser[33..45], &ser[46..46 + n], &ser[46 + n..]);
+    let ad = sha256(&suite_tuple_preimage(b"DefaultEngine", &[alg_id.to_vec(), id.to_vec()]));
+    let mut data = ct.to_vec();
+    Aes256Gcm::new(ekey).open_in_place(nonce, &mut data, tag, &ad).expect("raw unwrap");
+    data
+}
+
+/// `CipherSuiteExt::labeled_extract(domain, salt = [], label, ikm)` with the real HKDF-SHA512
+pub fn labeled_extract(domain: &[u8], label: &[u8], ikm: &[u8]) -> aranya_crypto::dangerous::spideroak_crypto::kdf::Prk<<HkdfSha512 as aranya_crypto::dangerous::spideroak_crypto::kdf::Kdf>::PrkSize> {
+    let eo = encoded_oids();
+    HkdfSha512::extract_multi([domain, &eo[..], label, ikm], &[])
+}
+
+/// `CipherSuiteExt::labeled_expand(domain, prk, label, info)` producing `out.len()` bytes
+pub fn labeled_expand(
+    domain: &[u8],
+    prk: &aranya_crypto::dangerous::spideroak_crypto::kdf::Prk<<HkdfSha512 as aranya_crypto::dangerous::spideroak_crypto::kdf::Kdf>::PrkSize>,
+    label: &[u8],
+    info: &[u8],
+    out: &mut [u8],
+) {
+    let eo = encoded_oids();
+    let size = (out.len() as u16).to_be_bytes();
+    HkdfSha512::expand_multi(out, prk, [&size[..], domain, &eo[..], label, info]).expect("expand");
+}
+
+/// raw AES-256-GCM open with a 32-byte key
+pub fn aes_open(key: &[u8], nonce: &[u8], ct: &[u8], tag: &[u8], ad: &[u8]) -> Option<Vec<u8>> {
+    use aranya_crypto::dangerous::spideroak_crypto::import::Import as _;
+    let k = EngKey::import(key).ok()?;
+    let mut data = ct.to_vec();
+    Aes256Gcm::new(&k).open_in_place(nonce, &mut data, tag, ad).ok()?;
+    Some(data)
+}
